@@ -809,7 +809,7 @@ fn l_upsert_update(cfg: &SCfg, j: usize) {
         let freq = inner.frequency_sketch.read().expect("lock poisoned");
         inner.handle_upsert(kh, ent, old_w, new_w, &mut deqs, &freq, &mut counters);
     }
-    assert!(counters.entry_count == g.ec, "C10: applying an update must not change entry_count");
+    assert!(counters.entry_count == g.ec, "C10,C04,C03,C11: applying an update must not change entry_count (the updated entry was dropped or counted twice: capacity accounting and the entry itself are lost)");
     assert!(counters.weighted_size == ws0.saturating_sub(old_w as u64).saturating_add(new_w as u64),
             "C10,C03,C04: an applied update must move weighted_size by exactly (new - old) of ITS OWN op");
     let e = st.ent[j].as_ref().unwrap();
